@@ -469,11 +469,13 @@ package tags
 //@ panics nothing
 //@ requires inrange: 0 <= i && i < max(0, pl_len(rv_val(w)))
 //@ assigns nothing
+//@ ensures nth: result == pl_elem(rv_val(w), i)
 //@ func (tags.mapSliceWrapper).Index
 //@ props C01 C11
 //@ panics nothing
 //@ requires inrange: 0 <= i && i < max(0, len(w.ms))
 //@ assigns alloc S$Val
+//@ ensures pair: is(result, []any) && len(as(result, []any)) == 2 && as(result, []any)[0] == w.ms[i].Key && as(result, []any)[1] == w.ms[i].Value
 //@ func (tags.mapSliceWrapper).Len
 //@ pure
 //@ props C01 C11
